@@ -34,9 +34,26 @@ R_go    == <<End("go.")>>
 R_eq    == <<Out("eq($X) :-"), Out("$X ="), End("5.")>>
 R_neg   == <<Out("cold($T) :-"), End("$T < -2.5.")>>
 
+(* quoted text with periods, comment characters and commas inside parentheses; cut; not(...) divided  *)
+(* inside its parentheses; nested brackets over three lines; a list pattern after `=`; floats and      *)
+(* negative numbers at the end of a rule; three alternatives                                            *)
+R_quote == <<Out("say($X) :-"), In("print(\"Dr. %s, 100% // ok #1\","), End("$X).")>>
+R_cut   == <<Out("first($X) :-"), Out("q($X),"), End("!.")>>
+R_not   == <<Out("none($X) :-"), In("not(q($X,"), End("$Y)).")>>
+R_deep  == <<In("deep(f(g($X,"), In("[a,"), In("b])),"), End("$Y).")>>
+R_hd    == <<In("hd($L,"), Out("$H) :-"), Out("$L ="), End("[$H | $_].")>>
+R_half  == <<Out("half($X) :-"), Out("$X ="), End("0.5.")>>
+R_negi  == <<Out("neg($X) :-"), Out("$X ="), End("-5.")>>
+R_or3   == <<Out("any($X) :-"), Out("q($X);"), Out("r($X);"), End("$X = 7.")>>
+R_le    == <<Out("small($X) :-"), Out("num($X),"), Out("$X <="), End("2.5.")>>
+R_eqeq  == <<Out("same($X, $Y) :-"), Out("$X =="), End("$Y.")>>
+
 Programs == IF Slice = "layout"
             THEN { <<R_fact, R_rule>>, <<R_or, R_go>>, <<R_flt, R_calc>>, <<R_minus>>, <<R_list, R_cmp>>,
-                   <<R_eq, R_fact>>, <<R_neg, R_go, R_flt>>, <<R_rule, R_eq>> }
+                   <<R_eq, R_fact>>, <<R_neg, R_go, R_flt>>, <<R_rule, R_eq>>,
+                   <<R_quote, R_go>>, <<R_cut, R_not>>, <<R_deep>>, <<R_hd, R_half>>, <<R_negi, R_or3>>, <<R_le, R_eqeq>> }
+               \cup (IF Thorough THEN { <<R_quote, R_calc>>, <<R_not, R_flt, R_cut>>, <<R_half, R_negi, R_go>>, <<R_deep, R_le>>,
+                                        <<R_or3, R_hd>>, <<R_eqeq, R_minus, R_fact>> } ELSE {})
             ELSE {}
 
 RECURSIVE Flat(_)
